@@ -15,6 +15,7 @@ type extState struct {
 
 	// C20
 	pendingRestore map[instKey]*restoreOp
+	restoreEnters  map[instKey]int // restoreUserSnapshot entries per incarnation
 	restores       []*restoreOp
 
 	// C09
@@ -91,6 +92,7 @@ type pvIso struct {
 func (x *extState) init() {
 	x.userContents = map[string]bool{}
 	x.pendingRestore = map[instKey]*restoreOp{}
+	x.restoreEnters = map[instKey]int{}
 	x.verifies = map[uint64]*verifyOp{}
 	x.verByInst = map[instKey][]*verifyOp{}
 	x.cutM = map[[2]string]bool{}
@@ -250,6 +252,7 @@ func (c *checker) checkStarted(s *server, e *sim.Ev) {
 func (x *extState) hook(c *checker, s *server, key instKey, e *sim.Ev) {
 	switch e.K {
 	case "h.userrestore.enter":
+		x.restoreEnters[key]++
 		op := x.pendingRestore[key]
 		if op == nil {
 			op = &restoreOp{key: key}
@@ -411,6 +414,52 @@ func (x *extState) restoreReturned(c *checker, cl *call, e *sim.Ev) {
 }
 
 func (x *extState) finishRestore(c *checker) {
+	// A Restore that is answered ErrLeadershipTransferInProgress because a transfer was under way was refused
+	// before anything happened: the restore routine must not run for it. The hook and the client's return are
+	// logged by different goroutines, so this is a count per incarnation, not an ordering.
+	mayEnter := map[instKey]int{}
+	for _, cl := range c.callList {
+		if cl.op != "restore" {
+			continue
+		}
+		// Only ErrLeadershipTransferInProgress identifies a refusal before the restore routine - and only
+		// when the transfer was requested at an earlier virtual instant than the Restore (Restore ends with a
+		// no-op Apply of its own, which can fail with the very same errors after the restore has been done).
+		upFront := false
+		if cl.returned && !cl.dead && cl.err == errTransfer {
+			for _, t := range c.callList {
+				if (t.op == "transfer" || t.op == "transferto") && t.inst == cl.inst && t.invT < cl.invT {
+					upFront = true
+				}
+			}
+		}
+		if upFront {
+			c.cov("userrestore-refused-up-front")
+			continue
+		}
+		mayEnter[cl.inst]++
+	}
+	// ... and a Restore that was carried out (the routine ran to its end) must not have started while a
+	// leadership transfer requested at an earlier virtual instant was still unanswered.
+	for _, op := range x.restores {
+		if !op.entered || !op.done || op.call == nil {
+			continue
+		}
+		for _, t := range c.callList {
+			if (t.op == "transfer" || t.op == "transferto") && t.inst == op.key && t.invT < op.call.invT && (!t.returned || t.retSeq > op.enterSeq) && t.err != errEnqueue {
+				if t.returned && t.err != "" && t.retT == op.call.invT {
+					continue // answered in the instant of the restore: no order between the two
+				}
+				c.violate("C20", "restore-during-transfer", op.enterSeq, "user restore on %s was carried out although the leadership transfer requested at t=%dms was still in progress", op.key, t.invT/1e6)
+				break
+			}
+		}
+	}
+	for key, n := range x.restoreEnters {
+		if n > mayEnter[key] {
+			c.violate("C20", "restore-ran-although-refused", 0, "the user-restore routine ran %d time(s) on %s, but only %d Restore call(s) on it were not refused because a leadership transfer was already in progress: a refused Restore was carried out", n, key, mayEnter[key])
+		}
+	}
 	// a call is aborted by a restore only if a restore that was not refused ran on that
 	// incarnation while the call was in flight: a refused restore leaves everything alone.
 	// (The restore hook fires on entry, before the checks that refuse it; the calls are
